@@ -958,6 +958,37 @@ def m_range_is_empty(px, st, fr, ev):
     ]
 
 
+@model("std::ops::RangeInclusive::<Idx>::contains", "std::ops::Range::<Idx>::contains",
+       reason="range.contains(&x): start <= x and x <= end (resp. x < end)")
+def m_range_contains(px, st, fr, ev):
+    r = deref_val(px, st, ev["args"][0], depth=2)
+    x = deref_val(px, st, ev["args"][1], depth=2)
+    incl = "RangeInclusive" in ev["callee"]["path"]
+    if is_agg(r):
+        s, e = agg_get(r, "start"), agg_get(r, "end")
+    elif isinstance(r, tuple) and r and r[0] == "call" and r[1].endswith("RangeInclusive::<Idx>::new"):
+        s, e = r[2][0], r[2][1]
+    else:
+        return None
+    if s is None or e is None:
+        return None
+    lo = st.cons.lookup(mk_binop("Le", s, x))
+    hi = st.cons.lookup(mk_binop("Le" if incl else "Lt", x, e))
+    outs = []
+    for lv in ((1, 0) if not is_const(lo) else (lo[1],)):
+        for hv in ((1, 0) if not is_const(hi) else (hi[1],)):
+            def assume(c, lv=lv, hv=hv):
+                ok1 = is_const(lo) or c.set_known(lo, lv)
+                return ok1 and (is_const(hi) or c.set_known(hi, hv))
+            outs.append({"label": "lo=%d,hi=%d" % (lv, hv), "value": const(int(lv and hv)), "assume": assume})
+    return outs
+
+
+@model("std::ops::RangeInclusive::<Idx>::new", reason="a..=b as a value")
+def m_range_incl_new(px, st, fr, ev):
+    return val(agg("adt", "std::ops::RangeInclusive", None, (("start", ev["args"][0]), ("end", ev["args"][1]))))
+
+
 @model("core::str::<impl str>::split_once", reason="split_once(ch): Some((s[..h], s[h+1..])) with h the first match; None if absent")
 def m_split_once(px, st, fr, ev):
     seq = seq_of(px, st, ev["args"][0])
@@ -1321,6 +1352,14 @@ def m_hm_append(px, st, fr, ev):
     def do(s):
         px._write(s, a[1], a[2], new)
     return val(("call", ev["callee"]["path"], (), ev["uid"]), do=do)
+
+
+@model("http::HeaderMap::<T>::reserve", "http::HeaderMap::<T>::try_reserve", "http::HeaderMap::<T>::with_capacity",
+       reason="capacity management: the map's contents are unchanged")
+def m_hm_reserve(px, st, fr, ev):
+    if ev["callee"]["path"].endswith("with_capacity"):
+        return val(("hdrs", ()))
+    return val(UNIT)
 
 
 @model("Entity::add_headers", reason="the entity appends its own headers: recorded as one opaque ENTITY entry")
